@@ -34,10 +34,22 @@
 (*     returned (converged) iterate go to `fails`, anything about intermediate iterates to *)
 (*     `flags` (drift).  Verdicts are total: every trace ends in "converged" or "capped".  *)
 (*     mode "mc": the lambda -> 0+ limit of the same loop with a uniform prior (softmax ->  *)
-(*     uniform over the maximisers, lambda KL -> 0): Evaluate is an exact rational solve,   *)
-(*     Improve takes the arg-max sets; TLC explores it from EVERY initial support.          *)
-(* (P) invariants at the bottom: ZeroTempOptimal, SupportsNonEmpty, action property         *)
-(*     MonotoneImprovement (mc); InstancesOK (instance filter, both modes).                 *)
+(*     uniform over the maximisers, lambda KL -> 0): MEvaluate is an exact rational solve,  *)
+(*     MImprove takes the arg-max sets and stops when the policy repeats; TLC explores it   *)
+(*     from EVERY initial support (initial_policy is a parameter of the code).              *)
+(* (P) invariants at the bottom: ZeroTempOptimal (the limit loop stops exactly at the       *)
+(*     oracle's optimal values with the full arg-max sets), SupportsNonEmpty,               *)
+(*     MCWithinRewardBounds, action property MonotoneImprovement (mc); InstancesOK (the     *)
+(*     quantifier of the property as an instance filter, both modes).                       *)
+(*                                                                                        *)
+(* Limit clause.  With a uniform prior max_a q - lambda ln|A| <= lambda ln mean_a e^(q/l)  *)
+(* <= max_a q, so the soft and the hard Bellman operators differ by at most lambda ln|A|   *)
+(* in sup norm, both are gamma-contractions and the soft one is below the hard one:        *)
+(* Q* - gamma lambda ln|A| / (1 - gamma) <= Q_lambda <= Q*.  Converge checks this against  *)
+(* the exact Q* (with max_s lambda(s) for per-state weights, ln|A| <= LogUB[|A|] / 10^4,   *)
+(* and the residual of the returned v as a fixed point, ResidSlack); the harness runs the  *)
+(* weights 1, 1/10, 1/100, 1/1000 on the same instances, so the distances are forced under *)
+(* a sequence of bounds that tends to 0.                                                   *)
 (*                                                                                        *)
 (* Tolerances (units of 1/2^20; every logged integer is a rounding, error <= 1/2):        *)
 (*  look-ahead     N floors + 1 floor + roundings <= N + 3; float32 runs add the forward   *)
